@@ -766,7 +766,8 @@ def eval_frames(run, frames, label, boxes_by_frame=None, origin=None):
         # a failing input for a broken correspondence: does the implementation's own answer violate the
         # property?  (the refinement requests above have judged the same frames: rejected ones were reported)
         run.violation({"kind": "broken-correspondence", "correspondence": "%s vs Model/Find (%s)" % (rq["op"], label),
-                       "etype": export.short(fr["etype"]), "request": rq, "implementation": ia, "model": ans,
+                       "etype": export.short(fr["etype"] if "etype" in fr else fr.get("base", fr.get("con"))),
+                       "request": rq, "implementation": ia, "model": ans,
                        "origin": origin},
                       signature=rq["op"] + ":model-differs", no_input=len(run.violations) == n0)
     return st
